@@ -3,3 +3,4 @@ import Driver.TextOps
 import Driver.ParseOps
 import Driver.GenOps
 import Driver.BuildOps
+import Driver.HeapOps
